@@ -6,6 +6,7 @@ import gen
 import pgsite
 import trees
 import validators as V
+from k06 import run_k06, run_k13  # K06/K13 correspondence (model <-> real renderers)
 
 PYG_ECHO = '''from pygopherd.handlers.pyg import PYGBase
 from pygopherd.gopherentry import GopherEntry
@@ -58,7 +59,7 @@ def body_of(proto, resp):
 
 def run(tier):
     chk = Check("C06", tier)
-    chk.proofs()
+    chk.proofs(extra_files=["Corr/K06.v"])  # K: Corr file of this property
     found = False
     rng = chk.rng
     ntrees = 8 if tier == "thorough" else 3
@@ -231,5 +232,10 @@ def run(tier):
                             "sequences compared with plain Gopher's; MIME type and body of every document compared across protocols; "
                             "directory selectors with and without trailing slash; search strings (ASCII, UTF-8, non-UTF-8 bytes, URL "
                             "metacharacters) submitted through each protocol's own mechanism to a PYG and a CGI echo handler")
+    # ---- K: the Coq renderers / readers against the real code (harness/k06.py) ----
+    kmism, kerr, kdetails = run_k06(chk, tier)
+    if kmism or kerr:
+        chk.correspondence_broken("K06 (renderers, directory walk, client-side readers: Model/RenderUrl.v, Model/ClientView.v)",
+                                  {"mismatches": kmism[:10], "error": kerr, "counts": kdetails}, found)
     chk.finish_proofs(found)
     return chk.finish("proof")
